@@ -42,7 +42,8 @@ CLAIM = {"text": "inside the enumerated bound every read in every allocated fram
 
 REAL_TARGETS = ["x86_64", "arm", "arm:thumb", "riscv", "riscv:rvc", "m68k", "mips", "avr", "msp430", "xtensa", "or1k", "microblaze", "stm8"]
 CPU_TINY = 20
-CPU_REAL = 240
+CPU_REAL = 60
+CPU_IR = 20
 
 
 # =================================================================================================== the model
@@ -85,7 +86,19 @@ class Model:
 
     def describe(self, i):
         nd = self.nodes[i]
+        if not isinstance(nd.text, str):
+            nd.text = ins_text(nd.text)
         return "%d:%s" % (i, nd.text)
+
+
+def ins_text(ins):
+    from ppci.arch.generic_instructions import RegisterUseDef
+    if isinstance(ins, RegisterUseDef):
+        return "usedef(uses=%s, defs=%s)" % (",".join(str(r) for r in ins.used_registers), ",".join(str(r) for r in ins.defined_registers))
+    try:
+        return str(ins)
+    except Exception:  # noqa
+        return type(ins).__name__
 
 
 class LocProblem:
@@ -371,7 +384,7 @@ def explain(m, path, name, loc):
                 written = [(d, ld) for d, ld in written if ld == fact_loc or fact_loc not in keep]
             if written:
                 d, ld = written[0]
-                if k == "move" and ld == fact_loc:
+                if k == "move" and ld == fact_loc and (0 in nd.sd or d == name):
                     hit = (j, "copy", nd.uses[0][1], nd)
                 elif k == "reload" and ld == fact_loc and nd.defs[nd.idx][1] == ld:
                     hit = (j, "reload", nd.slot, nd)
@@ -463,8 +476,9 @@ def analyse(m, stats=None, want_path=True):
             else:
                 mech, why = explain(m, path, name, loc)
             held = sorted(m.names[x] for x in prob.names_at(st, loc))
+            shown = path if path is None or len(path) <= 12 else "%s...%s (%d nodes)" % (path[:3], path[-6:], len(path))
             findings.append((mech, "[%s] reads %s from %s which holds {%s} on path %s: %s"
-                             % (m.describe(i), m.names[name], m.locs[loc], ",".join(held), path, why), {"node": i, "path": path}))
+                             % (m.describe(i), m.names[name], m.locs[loc], ",".join(held), shown, why), {"node": i, "path": path}))
     # ghost sanity: removed moves must be identities
     for i, nd in enumerate(m.nodes):
         if nd.kind == "omitted" and IN[i] is not None:
@@ -530,7 +544,7 @@ def analyse(m, stats=None, want_path=True):
 
 # =================================================================================================== recording
 
-_STATE = {"installed": False, "stack": [], "done": [], "keep": False, "round_cap": None}
+_STATE = {"installed": False, "stack": [], "done": [], "keep": False, "round_cap": None, "lazy_text": False}
 ROUND_CAP_TINY = 6
 ROUND_CAP_REAL = 8
 
@@ -538,6 +552,22 @@ ROUND_CAP_REAL = 8
 class RoundCap(Exception):
     """raised by the harness inside alloc_frame when a hand-built frame needs more spill rounds than ROUND_CAP_TINY
     (unallocatable frames double in size every round; ppci gives up only after 30)"""
+
+
+_ALIAS_CACHE = {}
+
+
+def _closure(r, universe, down):
+    """register r and everything below it (transitively through `aliases`) into universe; down[id] = ids of all descendants"""
+    if id(r) in universe:
+        return down[id(r)]
+    universe[id(r)] = r
+    acc = set()
+    down[id(r)] = acc
+    for a in getattr(r, "aliases", ()) or ():
+        acc.add(id(a))
+        acc |= _closure(a, universe, down)
+    return acc
 
 
 class Recorder:
@@ -555,6 +585,7 @@ class Recorder:
                    "freeze": 0, "select_spill": 0, "combine": 0}
         self.error = None
         self.model = None
+        self.lazy_text = _STATE["lazy_text"]
         for ins in frame.instructions:
             self.capture(ins)
         self.npre = len(frame.instructions)
@@ -693,21 +724,16 @@ class Recorder:
         for i, ins in enumerate(L):
             nd = Node()
             m.nodes.append(nd)
-            try:
-                nd.text = str(ins)
-            except Exception:  # noqa
-                nd.text = type(ins).__name__
-            if isinstance(ins, RegisterUseDef):
-                nd.text = "usedef(uses=%s, defs=%s)" % (",".join(str(r) for r in ins.used_registers), ",".join(str(r) for r in ins.defined_registers))
+            nd.text = ins if self.lazy_text else ins_text(ins)
             nd.inserted = id(ins) in self.inserted
             fu, fd = list(ins.used_registers), list(ins.defined_registers)
             if id(ins) in self.view:
                 _, nu, ndf = self.view[id(ins)]
             else:
-                m.anomalies.append("instruction %r appeared without passing through MiniGen" % nd.text)
+                m.anomalies.append("instruction %r appeared without passing through MiniGen" % ins_text(ins))
                 nu, ndf = fu, fd
             if len(nu) != len(fu) or len(ndf) != len(fd):
-                m.anomalies.append("operand count of %r changed during allocation" % nd.text)
+                m.anomalies.append("operand count of %r changed during allocation" % ins_text(ins))
                 nu, ndf = fu, fd
             if nd.inserted:
                 nd.su = frozenset(j for j, r in enumerate(nu) if id(r) in self.standins)
@@ -730,7 +756,7 @@ class Recorder:
                 kind, slot, idx = self.tags[id(ins)]
                 nd.kind, nd.slot, nd.idx = kind, loc_of_slot(slot), idx
                 if (kind == "reload" and idx >= len(nd.defs)) or (kind == "store" and idx >= len(nd.uses)):
-                    m.anomalies.append("spill tag does not fit %r" % nd.text)
+                    m.anomalies.append("spill tag does not fit %r" % ins_text(ins))
                     nd.kind = "op"
             elif isinstance(ins, RegisterUseDef):
                 nd.kind = "usedef"
@@ -742,38 +768,28 @@ class Recorder:
                     if id(j) in index:
                         ss.append(index[id(j)])
                     else:
-                        m.anomalies.append("jump target of %r is not in the frame" % nd.text)
+                        m.anomalies.append("jump target of %r is not in the frame" % ins_text(ins))
                 m.succ.append(sorted(set(ss)))
             else:
                 m.succ.append([i + 1] if i + 1 < len(L) else [])
-        # alias closure over `aliases` attributes (descendants and ancestors)
-        universe = {}
-        todo = list(self._phys)
-        for rc in arch.info.register_classes:
-            todo.extend(rc.registers or [])
-        while todo:
-            r = todo.pop()
-            if id(r) in universe:
-                continue
-            universe[id(r)] = r
-            todo.extend(getattr(r, "aliases", ()) or ())
-
-        def desc(r, acc):
-            for a in getattr(r, "aliases", ()) or ():
-                if id(a) not in acc:
-                    acc[id(a)] = a
-                    desc(a, acc)
-            return acc
-
-        down = {k: desc(r, {}) for k, r in universe.items()}
+        # alias closure over `aliases` attributes (descendants and ancestors); the class registers are cached per arch
+        cache = _ALIAS_CACHE.get(id(arch))
+        if cache is None:
+            cache = (arch, {}, {})
+            _ALIAS_CACHE[id(arch)] = cache
+            for rc in arch.info.register_classes:
+                for r in rc.registers or []:
+                    _closure(r, cache[1], cache[2])
+        universe, down = cache[1], cache[2]
+        for r in self._phys:
+            if id(r) not in universe:
+                _closure(r, universe, down)
         al = [set([i]) for i in range(len(m.locs))]
-        for k, r in universe.items():
-            if k not in loc_ix:
-                continue
+        for k, li in loc_ix.items():
             for d in down[k]:
                 if d in loc_ix:
-                    al[loc_ix[k]].add(loc_ix[d])
-                    al[loc_ix[d]].add(loc_ix[k])
+                    al[li].add(loc_ix[d])
+                    al[loc_ix[d]].add(li)
         for a, oa, sa in slots:
             for b, ob, sb in slots:
                 if a != b and oa < ob + sb and ob < oa + sa:
@@ -883,9 +899,10 @@ def install():
     _STATE["installed"] = True
 
 
-def record(fn, round_cap=None):
+def record(fn, round_cap=None, lazy_text=False):
     """Run fn() with recording switched on; -> (result or exception, [Recorder])"""
     install()
+    _STATE["lazy_text"] = lazy_text
     _STATE["done"] = []
     _STATE["keep"] = True
     _STATE["round_cap"] = round_cap
@@ -1051,7 +1068,7 @@ def run_tiny(p, prog, k, stats, want_path=True):
     alloc, frame = build_tiny(prog, k)
     try:
         with cpu_limit(CPU_TINY):
-            res, recs = record(lambda: alloc.alloc_frame(frame), round_cap=ROUND_CAP_TINY)
+            res, recs = record(lambda: alloc.alloc_frame(frame), round_cap=ROUND_CAP_TINY, lazy_text=True)
     except CpuTimeout:
         p.count("tiny_cpu_timeouts")
         return out
@@ -1241,7 +1258,7 @@ def run_real(p, target, name, level, stats, want_path=True):
     w = {"kind": "real", "target": target, "name": name, "level": level}
     out = []
     try:
-        with cpu_limit(CPU_REAL):
+        with cpu_limit(CPU_IR if level == "ir" else CPU_REAL):
             if level == "ir":
                 res, recs = compile_ir(target, name)
             else:
@@ -1402,9 +1419,11 @@ def compile_ir(target, name):
     from ppci.api import get_arch, ir_to_object
     from vf.gen import irgen
 
+    desc = ir_case(name, target)       # probes the usable operators (recording off)
+
     def go():
         import contextlib
-        m = irgen.build(ir_case(name, target))
+        m = irgen.build(desc)
         with contextlib.redirect_stdout(io.StringIO()), contextlib.redirect_stderr(io.StringIO()):
             return ir_to_object([m], get_arch(target))
     return record(go, round_cap=ROUND_CAP_REAL)
